@@ -197,6 +197,22 @@ reg('C07', True,
     'integrators (listed).',
     'clang 14 AST/CFG of 20 units (all state spaces); component spaces are opaque effects',
     'algebraic normal-form rewriting with path enumeration under parameter substitutions (t:=0, t:=1, aliasing, sign flip) + CFG typestate')
-for _p in ['C14', 'C15', 'C16',
+reg('C14', True,
+    'Decides the clauses of the statement that are visible in the code\'s shape, for all inputs: the exhaustive '
+    'branch returns a shortest of the six words on every weak ordering of their lengths; each word solver builds its '
+    'path on the table row that spells it; interpolation integrates the same path whose length distance() reports '
+    '(symmetric variant: the shorter direction, marked reverse_); both integrators are unit-curvature arcs and '
+    'straight lines by differentiation of their normal forms (d x/dv = cos yaw, d y/dv = sin yaw, d yaw/dv = +1/-1/0, '
+    'old pose at v = 0), scaled by the turning radius and translated by the start only at the end, with segment '
+    'length and type read at one index and a case for every segment type; the classification helpers equal the '
+    'solvers\' t, p, q; the word solvers and all 16 cells of the classification table obey the reversal symmetry '
+    '(alpha, beta) -> (beta, alpha), word -> reversed mirror; the Reeds-Shepp enumeration applies timeflip / reflect '
+    'consistently in all 11 formula groups and admits candidates only when shorter; the cached path is assigned '
+    'before firstTime is cleared. Not decided: that the word formulas reach the target pose, that the classified '
+    'word is the shortest (only its symmetry), arc length == distance numerically, Reeds-Shepp optimality, prefix '
+    'optimality (listed).',
+    'clang 14 AST/CFG of DubinsStateSpace.cpp and ReedsSheppStateSpace.cpp (88 functions); mod2pi treated as a congruence',
+    'algebraic normal forms + symbolic differentiation + finite-domain evaluation over orderings + AST pattern agreement + CFG typestate')
+for _p in ['C15', 'C16',
            'C20']:
     reg(_p, False, '', '', '', PENDING)
